@@ -84,7 +84,7 @@ func (c *c01) OnStep(x *Ctx, s *St, op Op, post *pf.GameState) string {
 }
 
 func (c *c01) terminal(x *Ctx, gs *pf.GameState) {
-	x.Run.Rep.Add("closed_hands_checked", 1)
+	x.Run.Count("closed_hands_checked", 1)
 	tag := func() string { return tagOf(x) }
 	if gs.Result == nil {
 		x.Violate("no-result:"+tag(), "closed hand has no settlement result", "result", "nil")
